@@ -171,8 +171,11 @@ class Tensor:
             self.copy_from(data); return
         
         if not isinstance(data, np.ndarray):
+            # numpy scalars (0-d results of reductions or indexing) keep their dtype;
+            # Python numbers and sequences use the default type
+            data_dtype = data.dtype if isinstance(getattr(data, "dtype", None), np.dtype) else default_type__
             try:
-                data = np.array(data, dtype=default_type__)
+                data = np.array(data, dtype=data_dtype)
             except: 
                 raise RuntimeError("data must be convertible into a numpy array")
         if dtype is not None and data.dtype != dtype: data = data.astype(dtype)
